@@ -754,7 +754,9 @@ class Gen:
             # `if (cond) do` + line break: the form picotool's parser accepts on purpose ("oddball carts that exploit an accidental
             # loophole in short-if"; PICO-8 reads it as `if (cond) then do end`), so `do` ends its line here
             self.sym(b'(')
+            self.in_line += 1            # (the head stays on its line: no token that spans lines in the condition)
             e = (self.exp(max(d - 2, 0)))
+            self.in_line -= 1
             self.sym(b')')
             i_do = self.t('keyword', b'do')
             self.p.must_break.add(i_do + 1)
